@@ -196,8 +196,11 @@ PROPS = {
         'not_covered': ['proxy() itself (select! expansion)', 'the decoder half (partial frames survive a dropped read) is C02'],
     },
     'C03': {
-        'units': ['codec', 'handshake'],
+        'units': ['codec', 'handshake', 'pubsub'],
         'scope': [
+            # the PUB / XPUB subscription-message parser: octets from a subscriber
+            ('pubsub', r'^(PubSocketBackend|XPubSocketBackend)::message_received$', A, None),
+            ('pubsub', r'^ZmqMessage::into_vec$', A, None),
             ('handshake', r'^SocketType::compatible$', S, None),
             ('handshake', r'PeerIdentity as TryFrom<Bytes>', S, None),
             ('handshake', r'^negotiate_version$', S, None),
@@ -219,6 +222,6 @@ PROPS = {
         },
         'kani_timeout': {'thorough': 3000},
         'assumptions': [],
-        'not_covered': ['"other connections keep working"; panics inside spawned tasks; the PUB/XPUB subscription parser (message_received)'],
+        'not_covered': ['"other connections keep working"; panics inside spawned tasks other than the verified parsers; memory allocated by Vec / String copies of received octets (proportional to bytes received by construction, not tracked by the ghost counter)'],
     },
 }
